@@ -349,8 +349,6 @@ def nontrivial(case, impl_lines):
 def classify(case, detail, impl_lines):
     if 'crash' in detail or 'missing' in detail:
         return 'crash'
-    if 'class=stale-after-disabled-recovery' in detail:
-        return 'stale-after-disabled-recovery'
     if 'class=nomore-reset' in detail:
         return 'nomore-reset'
     return 'delivery-rule'
